@@ -125,7 +125,23 @@ def main():
         k = sum(1 for e in t["events"] if e["ev"] == "MutatePrior" and e["nInf"] > 0)
         return (t["meta"]["label"], t["meta"]["seed"]) if k >= 2 else None
 
+    # plateau likelihoods (all supported points tie) and resumes from checkpoints written during the prior phase
+    jobs += sysrun.product_jobs({"ess_ratio": [2.0, 4.0], "evaluation": ["scalar", "vector"]}, {"clustering": False, "target": "tophat", "n_particles": 16},
+                                ck.seed + 111, n_total=24)
     sc, traces = sysrun.system_part(ck, "C11", jobs, nontrivial)
+    from vlib import procs, psrun
+
+    rj = [dict(conf=dict(clustering=False, support=0.5, ess_ratio=6.0, n_particles=16, **extra), seed=115 + i + 100 * ck.seed, label=f"c11resume#{i}",
+               n_total=24, save_every=1, max_ckpt=None, vary_n_total=False) for i, extra in enumerate([{}, {"volume_variation": 0.5}])]
+    rres = procs.run(sysrun.resume_job, rj, procs=len(rj), timeout=600)
+    rtr = []
+    for st_, r_ in rres:
+        if st_ != "ok":
+            raise RuntimeError("resume worker failed: " + str(r_)[:300])
+        rtr += [t for t in r_ if sysrun.all_inf_batch(t) is None]
+    rfails, _ = psrun.validate(rtr)
+    sysrun.attribute(ck, "C11", rtr, rfails)
+    cov["resumed_prior_phase_runs"] = sum(1 for t in rtr if t["meta"].get("resumed") and any(e["ev"] == "MutatePrior" for e in t["events"]))
     cov.update(sc)
     cov["states"] += states
     cov["transitions"] += trans
